@@ -75,11 +75,22 @@ func c09Next(g *prog.Gen, idx int, hist []*prog.Step) *prog.Op {
 		}
 		return &prog.Op{Kind: "getObject", Caller: "root", B: b, K: all[i][0], Vid: all[i][1]}
 	}
+	// every other program concentrates on one key, toggles Enabled/Suspended often and prefers the newest
+	// version id: histories in which null versions and id versions alternate, and the latest is deleted by id
+	focus := idx%2 == 1
+	if focus {
+		keys = keys[:1]
+	}
 	k := keys[g.R.Intn(len(keys))]
 	vids := c09KnownVids(hist)[k]
+	if focus && g.R.Chance(12) {
+		return &prog.Op{Kind: "putVersioning", Caller: "root", B: b, On: g.R.Chance(50)}
+	}
 	pickVid := func() string {
 		r := g.R.Intn(10)
 		switch {
+		case focus && len(vids) > 0 && r < 4:
+			return vids[len(vids)-1]
 		case len(vids) > 0 && r < 7:
 			return vids[g.R.Intn(len(vids))]
 		case r < 8:
